@@ -84,7 +84,7 @@ func NewParser(l *Lexer) Parser {
 		PlusEqual:     {PrecAssign, nil, assign},
 		MinusEqual:    {PrecAssign, nil, assign},
 		MultiplyEqual: {PrecAssign, nil, assign},
-		DivideEqual:   {PrecAssign, nil, assign},
+		DivideEqual:   {PrecAssign, regex, assign},
 		AmpAmp:        {PrecLogical, nil, binary},
 		PipePipe:      {PrecLogical, nil, binary},
 		Match:         {PrecNone, match, nil},
@@ -510,6 +510,11 @@ func literal(p *Parser) (Expr, error) {
 }
 
 func regex(p *Parser) (Expr, error) {
+	if p.current.Tag == DivideEqual {
+		// where an operand is expected, /= is the start of a regex whose first
+		// character is =
+		p.lexer.unreadEqual()
+	}
 	token, err := p.lexer.Regex()
 	if err != nil {
 		return nil, err
